@@ -6,6 +6,7 @@ cd "$(dirname "$0")"
 ./seeded_confirm.sh $ID > /tmp/proc-$ID.log 2>&1
 git -C /repo worktree remove --force /tmp/mut-$ID 2>/dev/null
 if grep -q "^CONFIRMED" /tmp/proc-$ID.log; then
-  ./seeded_run_wt.sh /verif/seeded/$ID $P 2>&1 | grep -E "signature|CAUGHT|MISSED|INCONCL|BUILD|^$P " | head -6 | cut -c1-300 >> /tmp/proc-$ID.log
+  # the verdict "when the change arrived": the monitors as committed when round 3 started (a worktree of /verif)
+  ${ARRIVAL:-/tmp/verif-arrival}/seeded_run_wt.sh /verif/seeded/$ID $P 2>&1 | grep -E "signature|CAUGHT|MISSED|INCONCL|BUILD|^$P " | head -6 | cut -c1-300 >> /tmp/proc-$ID.log
 fi
 tail -8 /tmp/proc-$ID.log
